@@ -486,7 +486,11 @@ class Scene(Geometry3D):
             dtype=np.float64,
         )
         # weight the center of mass locations by volume
-        weights = np.array([mass[g] for _, g in instance], dtype=np.float64)
+        # the mass of an instance scales with the volume scale of its transform
+        weights = np.array(
+            [mass[g] * abs(np.linalg.det(mat[:3, :3])) for mat, g in instance],
+            dtype=np.float64,
+        )
         weights /= weights.sum()
         return (transformed * weights.reshape((-1, 1))).sum(axis=0)
 
@@ -534,9 +538,15 @@ class Scene(Geometry3D):
         """
         # get the area of every geometry that has an area property
         areas = {n: g.area for n, g in self.geometry.items() if hasattr(g, "area")}
-        # sum the area including instancing
+        graph = self.graph
+        # sum the area including instancing: under a similarity transform
+        # area scales with the square of the length scale `abs(det) ** (2 / 3)`
         return sum(
-            (areas.get(self.graph[n][1], 0.0) for n in self.graph.nodes_geometry), 0.0
+            (
+                areas.get(g, 0.0) * abs(np.linalg.det(mat[:3, :3])) ** (2.0 / 3.0)
+                for mat, g in (graph[n] for n in graph.nodes_geometry)
+            ),
+            0.0,
         )
 
     @caching.cache_decorator
@@ -552,9 +562,15 @@ class Scene(Geometry3D):
         """
         # get the area of every geometry that has a volume attribute
         volume = {n: g.volume for n, g in self.geometry.items() if hasattr(g, "area")}
-        # sum the area including instancing
+        graph = self.graph
+        # sum the volume including instancing: the volume of an instance
+        # scales with the determinant of its transform
         return sum(
-            (volume.get(self.graph[n][1], 0.0) for n in self.graph.nodes_geometry), 0.0
+            (
+                volume.get(g, 0.0) * abs(np.linalg.det(mat[:3, :3]))
+                for mat, g in (graph[n] for n in graph.nodes_geometry)
+            ),
+            0.0,
         )
 
     @caching.cache_decorator
